@@ -548,6 +548,22 @@ PROPS["C03"]["harness"].append({"bin": "h_codec", "args": ["hostile"]})
 
 PROPS["C09"]["needs_gen"] = ["Funcs"]
 
+# the reader's allocation budget is per record (Props/Budget.lean over the regenerated facts of
+# Gen/Budget.lean): part of "every record written can be read back" (C01) and of "whether flushed records
+# can be read does not depend on where the Flush calls fall" (C06); the checker itself is tied op for op
+# by h_prim alloc (filed under C03), which these two run as well.
+for _p in ("C01", "C06"):
+    PROPS[_p]["lean_modules"].append("Stef.Props.Budget")
+    PROPS[_p]["needs_gen"] = ["Tables", "Consts", "CallSites", "Budget"]
+    PROPS[_p]["harness"].append({"bin": "h_prim", "args": ["alloc"], "as_props": ["C03"]})
+    PROPS[_p]["level_text"] += (" Props/Budget: read_budget_per_record (the reader loop of the CURRENT source - regenerated facts: "
+                                "ResetAllocSize() precedes every Decode call of the generated readers and zeroes the counter - decodes "
+                                "every stream whose records each stay within RecordAllocLimit, however many records and wherever the "
+                                "frames end), budget_accumulates_without_reset (witness), over_limit_record_refused; long-stream cases "
+                                "(560+ records alternating a 20 000-element and an empty array, as one frame and as many) run the real reader.")
+PROPS["C03"]["lean_modules"].append("Stef.Props.Budget")
+PROPS["C03"]["needs_gen"] = ["Tables", "Consts", "CallSites", "Budget"]
+
 HGEN_TB = CODEC_TB + [
     "lib/hgen.py + harness/cmd/h_gen (schema generator, append-only evolver, driver template) + harness/hgenlib (driver "
     "logic over the PUBLIC API of the generated packages via reflection); stefc is built from the repository's working tree, "
